@@ -30,7 +30,7 @@ SIO_RULE = ("histories on one sio.Crew: a fixed corpus first (witnesses of D11, 
 def sio_run(mode, M, V, NT, n):
     return dict(component="sio", require="Corr.SioCorr", require_vo="Corr/SioCorr.vo",
                 n=dict(quick=n[0], thorough=n[1]), shard=40, opts=dict(mode=mode),
-                evals=dict(M=M, V=V, NT=NT, FULL="sio_full_mismatch_count"), counts=("NT", "FULL"),
+                evals=dict(M=M, V=V, NT=NT, M2="sio_mismatches", FULL="sio_full_mismatch_count"), counts=("NT", "FULL"),
                 timeout=dict(quick=600, thorough=3000))
 
 PROPS = {
